@@ -24,8 +24,9 @@ META = {
     "outside": ["the interpolated kernel converges to the base kernel as the grid is refined (asymptotic, analytic)",
                 "Toeplitz / FFT path (use_toeplitz(True))", "CG-selected paths", "RFF predictive covariance (Cholesky of a matrix of trigonometric polynomials); that the random features approximate the RBF kernel (probabilistic)",
                 "KISS-GP (InterpolatedPredictionStrategy): the predictive COVARIANCE for training inputs strictly inside grid cells (decided "
-                "only for training inputs at grid nodes; the mean is decided for both), and the WISKI fantasy update (SVD inside "
-                "add_low_rank, nested square roots)", "rounding"],
+                "only for training inputs at grid nodes; the mean is decided for both); the WISKI fantasy update is decided only in "
+                "the variables it is linear in (targets, prior-mean constant) at concrete hyper-parameters / inputs, its covariance "
+                "is compared concretely", "rounding"],
     "assumptions": ["reals for floats", "x stays inside the enumerated grid cell (path condition from floor())"],
 }
 TIMEOUT_S = {"quick": 600, "thorough": 900}
@@ -469,6 +470,72 @@ def kiss_dynamic_grid(S, training):
     S.prove_eq(cross, want3, "evaluation inside the re-fitted grid = fresh kernel that was fitted to the same inputs")
 
 
+def wiski(S, fpv, n=5, f=2, m=2, G=10, depth=1):
+    """KISS-GP fantasy update (WISKI caches), decided in the variables it is LINEAR in: the kernel hyper-parameters, inputs and
+       noise are concrete (every factorisation, including the SVD of add_low_rank and the jittered Cholesky of the singular
+       W D^-1 W^T, runs on numbers), the training targets, fantasy targets and the prior-mean constant are symbolic. z3 (linear
+       real arithmetic) proves |fantasy mean - dense conditional mean| <= 1e-5 for ALL targets and mean constants in [-3, 3];
+       the fantasy covariance does not depend on them and is compared at its (concrete) value."""
+    from symten.core import ge_formula
+    torch.manual_seed(100 + S.seed)
+    gk = K.GridInterpolationKernel(K.RBFKernel(), grid_size=G, num_dims=1, grid_bounds=[(0.0, 1.0)])
+    gk.base_kernel.lengthscale = 0.3
+    lik = gpytorch.likelihoods.GaussianLikelihood()
+    lik.noise = 0.15
+    xall = torch.cat([torch.linspace(0.05, 0.95, n).unsqueeze(-1) + 0.02 * torch.rand(n, 1), torch.rand(f, 1) * 0.9 + 0.05, torch.rand(m, 1) * 0.9 + 0.05])
+    x, xf, xs = xall[:n], xall[n:n + f], xall[n + f:]
+    y = S.randn(n); Y = S.sym_tensor(y, "y")
+    yf = S.randn(f); YF = S.sym_tensor(yf, "yf")
+    f1 = f if depth == 1 else f - 1  # depth 2: the fantasy points are added in two successive steps
+
+    class Model(gpytorch.models.ExactGP):
+        def __init__(self_):
+            super().__init__(x, y, lik)
+            self_.mean_module = gpytorch.means.ConstantMean()
+            self_.covar_module = gk
+
+        def forward(self_, xx):
+            return gpytorch.distributions.MultivariateNormal(self_.mean_module(xx), self_.covar_module(xx))
+
+    model = Model()
+    with torch.no_grad():
+        model.mean_module.raw_constant.fill_(0.7)
+    Cm = S.sym_tensor(model.mean_module.raw_constant.data, "c")[()]
+    for p in model.parameters():
+        p.requires_grad_(False)
+    model.eval(); lik.eval()
+    for v in list(Y) + list(YF) + [Cm]:
+        CTX.assume(ge_formula(v, Sym.const(-3.0)))
+        CTX.assume(ge_formula(Sym.const(3.0), v))
+    with torch.no_grad(), gpytorch.settings.use_toeplitz(False):
+        Kall = dense(gk(xall, xall)).double().numpy().copy()
+    with S.mode(), gpytorch.settings.use_toeplitz(False), gpytorch.settings.fast_pred_var(fpv):
+        _ = model(xs).mean
+        fm = S.must_not_raise("KISS-GP get_fantasy_model", lambda: model.get_fantasy_model(xf[:f1], yf[:f1]))
+        if depth == 2:
+            _ = fm(xs).mean
+            fm = S.must_not_raise("KISS-GP get_fantasy_model (2nd step)", lambda: fm.get_fantasy_model(xf[f1:], yf[f1:]))
+        out = fm(xs)
+        mean_t = as_sym_arr(SH.get(out.mean))
+        cov_c = out.covariance_matrix.detach().double().numpy()
+    ntr = n + f
+    A = Kall[:ntr, :ntr] + float(lik.noise) * np.eye(ntr)
+    Ksx = Kall[ntr:, :ntr]
+    Wt = Ksx @ np.linalg.inv(A)  # m x ntr, concrete
+    yall = np.concatenate([Y, YF])
+    eps = Sym.const(1e-5)
+    for i in range(m):
+        ref = Cm + sum(((yall[j] - Cm) * Sym.const(float(Wt[i, j])) for j in range(ntr)), Sym.const(0.0))
+        S.prove_ge(mean_t[i] - ref + eps, Sym.const(0.0), "WISKI fantasy mean[%d] >= dense conditional - 1e-5 for all targets / mean constants in the box" % i)
+        S.prove_ge(ref - mean_t[i] + eps, Sym.const(0.0), "WISKI fantasy mean[%d] <= dense conditional + 1e-5 for all targets / mean constants in the box" % i)
+    Cref = Kall[ntr:, ntr:] - Wt @ Ksx.T
+    mc = np.array([s_.c for s_ in mean_t])
+    rc = float(Cm.c) + Wt @ (np.array([v.c for v in yall]) - float(Cm.c))
+    S.notes.append("observed at the witness: mean difference %.2g, covariance difference %.2g" % (float(np.max(np.abs(mc - rc))), float(np.max(np.abs(cov_c - Cref)))))
+    S.check_concrete(bool(np.max(np.abs(cov_c - Cref)) < 1e-4), "WISKI fantasy covariance = dense conditional covariance (concrete, tolerance 1e-4)",
+                     "max abs difference %.3g" % float(np.max(np.abs(cov_c - Cref))))
+
+
 def sgpr_history(S, ops):
     """the inducing-point kernel's caches (K_zz, its inverse root) follow the parameters through a history (see C03.history_sgpr)"""
     from .C03 import history_sgpr
@@ -496,6 +563,12 @@ def scenarios(tier, seed):
     add("sgpr", n=2, M=1, m=1, diag_corr=True, what="predict")
     for ops in (["P", "O"], ["P", "L"]) + ((["P", "T", "O"], ["P", "E", "L"], ["O", "P", "L"]) if tier != "quick" else ()):
         add("sgpr_history", ops=ops)
+    add("wiski", fpv=False)
+    add("wiski", fpv=True)
+    add("wiski", fpv=False, depth=2)
+    if tier != "quick":
+        add("wiski", fpv=True, depth=2)
+        add("wiski", fpv=False, n=7, f=3, m=3, G=14)
     add("kiss_dynamic_grid", training=False)
     add("kiss_dynamic_grid", training=True)
     add("rff", what="kernel")
